@@ -111,3 +111,11 @@ def run(ctx):
 
     ctx.rule('C02.3-recursion-bounded', 'every recursive cycle reachable from a decode entry point passes a depth guard', floor=2)
     check_recursion(ctx, P, roots, 'C02.3-recursion-bounded', crate='erltf')
+
+    # map keys are compared while a map is being decoded (BTreeMap::insert): the comparators must return
+    ctx.rule('C02.3-comparator-terminates', 'the term comparators, which BTreeMap::insert calls while a MAP_EXT is decoded, do not answer a pair of variants by the swapped call in both directions '
+             '(rule C11.1-swap-terminates re-run): two such keys in one map overflow the stack and abort the process', floor=2)
+    from ..order import SubCtx as _Sub02
+    from . import c11 as _c11_02
+    if type(ctx).__name__ != 'SubCtx':
+        _c11_02.run(_Sub02(ctx, 'C02.3-comparator-terminates', 'c11', allow=('C11.1-swap-terminates',)))
